@@ -716,8 +716,16 @@ class CSSParser:
                 _s2 += nth_parts.group('b')
             else:
                 _s2 = '0'
-            s1 = int(_s1, 10)
-            s2 = int(_s2, 10)
+            try:
+                s1 = int(_s1, 10)
+                s2 = int(_s2, 10)
+            except ValueError:
+                # Python limits how many digits it converts to an integer (`sys.set_int_max_str_digits`)
+                raise SelectorSyntaxError(
+                    f"The `nth` value at position {m.start(0)} is too large",
+                    self.pattern,
+                    m.start(0)
+                ) from None
 
         pseudo_sel = mdict['name']
         if postfix == '_child':
